@@ -197,6 +197,10 @@ func (h *cbMembership) monitor() {
 				if errors.As(err, &kvErr) && kvErr.StatusCode == memd.StatusKeyNotFound {
 					logger.Log.Debug("instance no longer available, id: %v", id)
 					return
+				} else if !h.monitorRunning {
+					// Close() has overtaken this round: the client is shutting down, its connections may be gone
+					logger.Log.Debug("monitor round abandoned, membership is closed: %v", err)
+					return
 				} else {
 					logger.Log.Error("error while monitor try to get instance, err: %v", err)
 					panic(err)
@@ -219,6 +223,10 @@ func (h *cbMembership) monitor() {
 		}(i, id)
 	}
 	wg.Wait()
+
+	if !h.monitorRunning {
+		return
+	}
 
 	var filteredInstances []Instance
 	for _, instance := range instances {
